@@ -30,18 +30,22 @@ delta into the families listed in FAMILIES (candidate finding DESIGN §7-F13 and
 the others found while building the check); anything else has family None.
 
 Mutants this was built against (scratch worktree with the proposed fixes
-applied, so that the known families do not mask them):
- * finish_deletions not reversed;
- * removals processed after renames;
- * rename_remote stages to a name inside the old directory instead of the root;
+applied, so that the open families do not mask them); every one is caught with
+a concrete replay, most by the oracle, the ordering ones by the scripted
+sequences that run first:
+ * finish_deletions not reversed (needs a 3-level deletion: script deep-delete);
+ * finish_renames sorted descending / rename_remote staging inside the old
+   directory (script nested-rename);
  * `if change.changed_content` dropped (renamed+modified file keeps old text);
- * upload_file reads the OLD path's executable bit / mode constant swapped;
+ * upload_file: mode constants swapped;
  * is_ignored does not check parents;
  * renamed: `and` -> `or` in the both-ignored test;
- * kind_changed: deletion of the old object dropped;
- * delete_remote_dir_maybe re-raises instead of deferring;
- * full upload: make_remote_dir_robustly does not delete a file in the way;
- * harmless: pending lists as deque / f-string changes / loop rewritten with enumerate.
+ * kind_changed: deletion of an old symlink dropped;
+ * delete_remote_dir_maybe defers only on NoSuchFile (DirectoryNotEmpty escapes);
+ * make_remote_dir_robustly does not delete a file in the way (full upload);
+ * removed symlinks not deleted;
+ * the first modified entry skipped;
+ * harmless: finish_deletions rewritten with a pop() loop - stays clean.
 """
 import io
 import os
@@ -52,10 +56,10 @@ import stat
 from vlib import env
 
 THEOREMS = [
-    "kget_kset", "kput_same", "stage_all_toplevel", "finish_all_toplevel",
-    "upload_renames_reach_tree_partial", "nested_rename_witness", "nested_rename_second_witness",
-    "children_first_fixes_witnesses", "rename_into_new_dir_witness", "full_upload_idempotent_partial",
-    "ignored_never_addressed", "ignored_rename_boundary_witness", "symlink_families_witness",
+    "moves_sequential_eq_simultaneous", "rename_exec_independent", "upload_renames_reach_tree_partial",
+    "nested_rename_witness", "nested_rename_second_witness", "children_first_fixes_witnesses",
+    "rename_into_new_dir_witness", "symlink_families_witness", "renamed_as_file_witness",
+    "full_upload_keeps_stale_witness", "ignored_rename_boundary_witness", "ignored_never_addressed",
 ]
 RULE = ("case = one upload: (remote listing before, tree delta the uploader computes, new tree, ignore list, mode "
         "incremental | full | overwrite-jump); sequences of 4-7 commits of 1-3 random edits over 5 names; "
@@ -544,6 +548,81 @@ def resync(wt, remote, rid):
         pass
 
 
+# hand-written sequences that run first on every run: one list of edits per commit
+SCRIPTS = {
+    "deep-delete": [[("mkdir", "a"), ("mkdir", "a/b"), ("file", "a/b/d", "1"), ("file", "a/e", "2"), ("file", "f", "3")],
+                    [("rm", "a")]],
+    "swap-and-cycle": [[("file", "a", "1"), ("file", "b", "2"), ("mkdir", "d"), ("file", "d/x", "3"), ("ln", "e", "t1"), ("file", "f", "4")],
+                       [("swap", "a", "b"), ("cycle", "d", "e", "f")],
+                       [("swap", "d", "a")]],
+    "nested-rename": [[("mkdir", "d"), ("file", "d/f", "1")], [("mv", "d/f", "d/a"), ("mv", "d", "e")]],
+    "nested-rename-2": [[("mkdir", "d"), ("mkdir", "d/e"), ("file", "d/e/f", "1")], [("mv", "d/e", "b"), ("mv", "d", "b/d")]],
+    "move-out-and-delete": [[("mkdir", "d"), ("file", "d/a", "1"), ("file", "d/b", "2")], [("mv", "d/a", "a"), ("rm", "d")]],
+    "kind-changes": [[("file", "a", "1"), ("mkdir", "b"), ("ln", "d", "t1")],
+                     [("rm!", "a"), ("mkdir", "a"), ("rm!", "b"), ("ln", "b", "t2"), ("rm!", "d"), ("file", "d", "9")]],
+    "mode-and-text": [[("file", "a", "1"), ("file", "b", "2")], [("chmod", "a"), ("file", "b", "22")], [("chmod", "a")]],
+    "rename-modified": [[("file", "a", "1"), ("mkdir", "d")], [("file", "a", "11"), ("mv", "a", "d/b")]],
+}
+
+
+def apply_script_op(wt, op):
+    root = wt.basedir
+    kind = op[0]
+    full = os.path.join(root, op[1])
+    if kind == "mkdir":
+        os.mkdir(full)
+        wt.smart_add([full])
+    elif kind == "file":
+        with open(full, "w") as f:
+            f.write(op[2] + "\n")
+        wt.smart_add([full])
+    elif kind == "ln":
+        os.symlink(op[2], full)
+        wt.smart_add([full])
+    elif kind == "chmod":
+        os.chmod(full, os.stat(full).st_mode ^ 0o111)
+    elif kind == "mv":
+        wt.rename_one(op[1], op[2])
+    elif kind == "rm":
+        wt.remove([op[1]], keep_files=False, force=True)
+    elif kind == "rm!":     # replace the object on disk, keeping the file id (a kind change)
+        if os.path.isdir(full) and not os.path.islink(full):
+            shutil.rmtree(full)
+        else:
+            os.unlink(full)
+    elif kind == "swap":
+        wt.rename_one(op[1], "swaptmp")
+        wt.rename_one(op[2], op[1])
+        wt.rename_one("swaptmp", op[2])
+    elif kind == "cycle":
+        x, y, z = op[1:]
+        wt.rename_one(z, "chaintmp")
+        wt.rename_one(y, z)
+        wt.rename_one(x, y)
+        wt.rename_one("chaintmp", x)
+
+
+def run_script(ctx, name):
+    wt = env.make_tree("2a")
+    remote = env.fresh_dir("c43r")
+    out = []
+    try:
+        for c, ops in enumerate(SCRIPTS[name]):
+            for op in ops:
+                apply_script_op(wt, op)
+            rid = wt.commit("c%d" % c)
+            case = dict(script=name, commit=c, upload=c, mode="inc", edits=[list(o) for o in ops])
+            line, impl, ok = one_upload(ctx, wt, remote, rid, "inc", case)
+            ctx.count("script:" + name)
+            out.append((case, line, impl))
+            if not ok:
+                resync(wt, remote, rid)
+    finally:
+        shutil.rmtree(wt.basedir, ignore_errors=True)
+        shutil.rmtree(remote, ignore_errors=True)
+    return out
+
+
 def run_sequence(ctx, seed, ncommits):
     rng = _random.Random(repr(seed))
     wt = env.make_tree("2a")
@@ -598,8 +677,13 @@ def run(ctx, nseq=None):
     os.umask(0o022)
     _FAMILY_SEEN.clear()
     probe_variant(ctx)
-    nseq = nseq or ctx.pick(45, 500)
+    nseq = nseq or ctx.pick(40, 600)
     cases, lines, impls = [], [], []
+    for name in SCRIPTS:
+        for case, line, impl in run_script(ctx, name):
+            cases.append(case)
+            lines.append(line)
+            impls.append(impl)
     for i in range(nseq):
         for case, line, impl in run_sequence(ctx, (ctx.seed, i), ctx.rng.randint(4, 7)):
             cases.append(case)
@@ -616,6 +700,13 @@ def widen(ctx):
 def replay(ctx, case):
     os.umask(0o022)
     probe_variant(ctx)
+    if "script" in case:
+        for c, line, impl in run_script(ctx, case["script"]):
+            if c["upload"] == case["upload"]:
+                m = ctx.model([line])[0]
+                return dict(case=c, line=line, impl=impl, model=m, agree=(m == impl),
+                            oracle_failures=[v["what"] for v in ctx.violations if v["case"].get("upload") == case["upload"]])
+        return dict(case=case, error="upload index not reached")
     seed = tuple(case["seq"])
     rng = _random.Random(ctx.seed)
     # the sequence is regenerated with the same per-sequence seed; the number of commits is
